@@ -1,5 +1,6 @@
 """C18 - link diagrams: mutual consistency of the convention tables (E7). Partition of edges for every PD code NOT decided."""
 import e7_tables
+import e33_scans
 
 LEVEL = 'other'
 EXPLANATION = ('The crossing conventions of yui-link are encoded several times (pass / arcs / resolve / mirror / sign match / '
@@ -17,5 +18,7 @@ TRUSTED = ['rustc MIR', 'PD convention: index 0 is the incoming under-strand end
 
 def run(ctx, rep):
     facts = ctx.facts()
+    rep.rule('E33', e33_scans.__doc__.strip().split('\n')[0])
+    e33_scans.run_for(facts, rep, 'yui_link', ['yui_link::'], 3)
     rep.rule('E7', e7_tables.__doc__.strip().split('\n')[0])
     e7_tables.run(facts, rep)
